@@ -250,6 +250,107 @@ def random_epochs(rng, n):
     return out
 
 
+FORMATS_ALL = ["jd", "mjd", "datetime", "isot", "iso", "yday", "date", "jyear", "decimalyear", "yydddsssss", "yyyydddsssss"]
+FORMATS_GPS = ["gps_ws", "gps_seconds"]
+
+
+def format_value(fmt, day, us_, extra):
+    """Input value(s) in format `fmt` for the epoch JD day (x.5) + us_ microseconds (+ `extra` seconds < 1 us where the
+    format can carry it).  Returns (val, val2).  Only used to *enter* epochs; the model is evaluated on the (jd1, jd2) the
+    constructed Time object holds, so the parsing of the format itself (C02) is not judged here."""
+    dt = datetime(2000, 1, 1) + timedelta(days=int(day - 2451544.5), microseconds=int(us_))
+    sec = us_ / 1e6 + extra
+    if fmt == "jd":
+        return day, sec / 86400.0
+    if fmt == "mjd":
+        return day - 2400000.5, sec / 86400.0
+    if fmt == "datetime":
+        return dt, None
+    if fmt == "isot":
+        return dt.strftime("%Y-%m-%dT%H:%M:%S.%f"), None
+    if fmt == "iso":
+        return dt.strftime("%Y-%m-%d %H:%M:%S.%f"), None
+    if fmt == "yday":
+        return dt.strftime("%Y:%j:%H:%M:%S.%f"), None
+    if fmt == "date":
+        return dt.strftime("%Y-%m-%d"), None
+    if fmt == "jyear":
+        return 2000.0 + ((day - 2451545.0) + sec / 86400.0) / 365.25, None
+    if fmt == "decimalyear":
+        return dt.year + ((dt - datetime(dt.year, 1, 1)).total_seconds() + extra) / (366 * 86400.0), None
+    if fmt == "yydddsssss":
+        return dt.strftime("%y:%j:") + f"{dt.hour * 3600 + dt.minute * 60 + dt.second:05d}", None
+    if fmt == "yyyydddsssss":
+        return dt.strftime("%Y:%j:") + f"{dt.hour * 3600 + dt.minute * 60 + dt.second:05d}", None
+    if fmt == "gps_ws":
+        d = int(day - 2444244.5)
+        week = d // 7
+        return float(week), (d - 7 * week) * 86400.0 + sec
+    if fmt == "gps_seconds":
+        return (day - 2444244.5) * 86400.0 + sec, None
+    raise ValueError(fmt)
+
+
+def format_stream(ctx, log, rows, rng, quick, clear_caches):
+    """Stream F: the epoch is entered in every format valid for the source scale (scalar and array forms) and converted to
+    every other scale; when the target scale lacks the format (gps_ws / gps_seconds outside gps) to_scale falls back to
+    format jd - the two-part Julian date must survive that."""
+    import numpy as np
+    from midgard.data.time import Time
+    n_ep = 4 if quick else 30
+    starts = [float(r[0]) for r in rows]
+    for a in SCALES:
+        fmts = FORMATS_ALL + (FORMATS_GPS if a == "gps" else [])
+        for fmt in fmts:
+            lo = 2444245 if fmt in FORMATS_GPS else (2440588 if fmt == "yydddsssss" else 2437300)   # yy: 1970..2069 window
+            hi = 2476000 if fmt == "yydddsssss" else 2488070
+            eps = []
+            for _ in range(n_ep):
+                day = rng.randrange(lo, hi) + 0.5
+                eps.append((day, rng.randrange(0, DAY_US), rng.random() * 1e-6))
+            # one epoch close to a leap-second boundary (1 s and 1 ms after/before), never on it
+            b = rng.choice([x for x in starts if lo + 1 < x < hi])
+            eps.append((b, rng.choice([1000, 10 ** 6]), 0.0))
+            eps.append((b - 1.0, DAY_US - rng.choice([1000, 10 ** 6]), 0.0))
+            vals = []
+            for day, us_, extra in eps:
+                try:
+                    vals.append(format_value(fmt, day, us_, extra))
+                except Exception as e:
+                    log.other.append(dict(kind="exception", what="generator format_value", fmt=fmt, error=f"{type(e).__name__}: {e}"))
+            objs = []
+            # scalar form for every epoch, one array form with all of them (shuffled)
+            for v, v2 in vals:
+                try:
+                    objs.append(("scalar", Time(v, scale=a, fmt=fmt) if v2 is None else Time(v, val2=v2, scale=a, fmt=fmt), repr((v, v2))))
+                except Exception as e:
+                    ctx.count(f"F:construct-failed(C02):{fmt}:scalar:{type(e).__name__}")
+            sh_ = list(vals)
+            rng.shuffle(sh_)
+            try:
+                v = np.array([x[0] for x in sh_])
+                if sh_[0][1] is None:
+                    objs.append((f"array{len(sh_)}", Time(v, scale=a, fmt=fmt), repr(list(v))))
+                else:
+                    v2 = np.array([x[1] for x in sh_])
+                    objs.append((f"array{len(sh_)}", Time(v, val2=v2, scale=a, fmt=fmt), repr((list(v), list(v2)))))
+            except Exception as e:
+                ctx.count(f"F:construct-failed(C02):{fmt}:array:{type(e).__name__}")
+            for form, t, shown in objs:
+                for b_ in SCALES:
+                    if b_ == a:
+                        continue
+                    r, ids = convert(log, t, a, b_, f"{fmt}:{form}", f"Time({shown[:160]}, scale={a!r}, fmt={fmt!r}).{b_}")
+                    ctx.count(f"F:{fmt}:{a}->{b_}")
+                    for i in ids:
+                        ctx.case(("F", fmt, a, b_, log.meta[i]["jd1"], log.meta[i]["jd2"]), nontrivial=True)
+                    # one more hop from the converted object (its fmt is the fallback 'jd' when the format is missing in b_)
+                    if r is not None and rng.random() < (0.3 if quick else 0.6):
+                        c_ = rng.choice([s_ for s_ in SCALES if s_ != b_])
+                        convert(log, r, b_, c_, f"{fmt}:{form}:2nd-hop", f"Time({shown[:120]}, scale={a!r}, fmt={fmt!r}).{b_}.{c_}")
+            clear_caches()
+
+
 def check_table(ctx, info):
     """cheap structural facts the Gen files rely on (reported as violations of the tie, not of the property)"""
     from midgard.data import _time
@@ -339,6 +440,9 @@ def run(ctx):
                 ctx.case(("B", a, b, log.meta[i]["jd1"], log.meta[i]["jd2"]), nontrivial=(a != b),
                          sample=(log.meta[i] if a != b and len(chunk) > 1 else None))
         clear_caches()
+
+    # ---- F. every input format valid for the source scale
+    format_stream(ctx, log, rows, rng, quick, clear_caches)
 
     # ---- C. property oracle on the implementation: A->B->A and A->B->C vs A->C within 10 ns, for A-epochs
     #         that are images of valid UTC instants (never inside an inserted leap second)
